@@ -40,6 +40,9 @@ func (this *StateValidatorListParam) Deserialization(source *common.ZeroCopySour
 	if eof {
 		return fmt.Errorf("source.NextVarUint, deserialize StateValidators length error")
 	}
+	if n > source.Len() {
+		return fmt.Errorf("source.NextVarUint, StateValidators length %d exceeds the remaining data", n)
+	}
 	stateValidators := make([]string, 0, n)
 	for i := 0; uint64(i) < n; i++ {
 		ss, eof := source.NextString()
